@@ -11,7 +11,7 @@ from mir import callee_of
 PLUMBING = re.compile(r'(^|::)(deref|deref_mut|as_ref|as_mut|borrow|borrow_mut|branch|from_residual|from_output|into|from|to_owned|clone|to_path_buf|to_string|'
                       r'into_iter|as_str|as_os_str|to_str|as_path|as_bytes|fmt|new_display|new_debug|new_const|new_v1|must_use|format|box_assume_init_into_vec_unsafe|'
                       r'new_uninit|write_box_via_move|default|as_slice|into_boxed_slice|exchange_malloc|into_vec|to_vec|new|with_capacity|from_str|as_deref|'
-                      r'call|call_mut|call_once)(::<.*)?$')
+                      r'call|call_mut|call_once|ok_or_else|map_err|unwrap_or_else|or_else)(::<.*)?$')          # error-side combinators: their closure's callees are listed under the function
 
 
 def _short(c):
